@@ -813,8 +813,9 @@ func main() {
 		runHistory(run, c.Case)
 		run.Finish()
 	}
+	run.Shard(6)
 	n := run.N(240, 6000)
-	sim.Parallel(n, 16, func(i int) { runHistory(run, i) })
+	sim.ParallelCases(n, 16, func(i int) { runHistory(run, i) })
 	for _, c := range []string{"resolve:SUCCESS", "resolve:FAILURE", "resolve:EXPIRED", "tx:rep-ok-late", "tx:rep-duplicate",
 		"tx:rep-not-chosen", "tx:rep-after-expiry", "tx:rep-wrong-extid", "tx:rep-wrong-size", "resolve-with-more-than-min-reports-in-block",
 		"tx:rep-unauthorised-exec", "result-bytes-compared"} {
